@@ -132,6 +132,37 @@ def r3_confined(cx):
           "PackInfo writer layout has constant payload length %s for every location length (reference %d): the rewrite covers exactly one slot" % (tot, ref.REF["sizes"]["PackInfo.payload"]))
 
 
+def r5_success_means_written(cx):
+    """every Ok(Some(..)) returned by set_location lies behind the write (an early "nothing to do" success is
+    accepted only when guarded by a byte-wise equality of the old and new location strings)"""
+    f, b = _set_location(cx)
+    writes = [i for i, t in b.calls(r"::ser_write$")]
+    somes = []
+    for i, blk in enumerate(b.blocks):
+        if blk.get("cleanup"):
+            continue
+        for s in blk["s"]:
+            if s["k"] == "assign" and s["rv"]["k"] == "agg" and s["rv"].get("adt", "").endswith("Option") and s["rv"].get("variant") == "Some" and \
+                    "PackKind" in b.locals[s["lhs"]["l"]]["ty"]:
+                somes.append(i)
+    ok = bool(writes) and bool(somes)
+    bad = []
+    for sb in somes:
+        if b.set_dominates(set(writes), sb):
+            continue
+        # early success without writing: allowed only under a byte-wise string equality
+        cds = b.control_dep_switches(sb)
+        bytewise = False
+        for s in cds:
+            for j, t in b.origin_calls(b.term(s)["op"], through_calls=False):
+                if call_is(t, r"PartialEq.*>::(eq|ne)$") and re.search(r"<(&)?(str|bases::types::small_string::SmallString|std::string::String|\[u8\]|&\[u8\])( as |>)", callee_str(t)) and not re.search(r"Path", callee_str(t)):
+                    bytewise = True
+        if not bytewise:
+            bad.append(b.ln(sb))
+    cx.ob("R5", "R5/success-implies-written", ok and not bad, f,
+          "every Ok(Some(..)) of set_location is reached through the ser_write of the rewritten PackInfo (a skipped write is only accepted under a byte-wise equality of old and new location); successes that bypass the write at lines %s" % bad)
+
+
 def _derives_local(b, op, locs):
     if not locs:
         return False
@@ -216,4 +247,5 @@ RULES = [
     ("R2", r2_mask, 3),
     ("R3", r3_confined, 7),
     ("R4", r4_unknown_uuid, 4),
+    ("R5", r5_success_means_written, 1),
 ]
